@@ -206,9 +206,36 @@ impl KnownFinding {
 		if parts.len() != 5 {
 			return false;
 		}
-		let has = |v: &Vec<String>, x: &str| v.iter().any(|y| y == x);
+		// entries are literal, or globs with '*' (used for label pairs "first+init:second" of the
+		// crash-during-recovery pass, where the first-level window is what identifies the finding)
+		let has = |v: &Vec<String>, x: &str| v.iter().any(|y| if y.contains('*') { glob_match(y, x) } else { y == x });
 		has(&self.classes, parts[1]) && has(&self.kinds, parts[2]) && has(&self.labels, parts[3]) && has(&self.ages, parts[4])
 	}
+}
+
+/// Minimal glob: '*' matches any (possibly empty) substring; everything else is literal.
+pub fn glob_match(pattern: &str, text: &str) -> bool {
+	let parts: Vec<&str> = pattern.split('*').collect();
+	if parts.len() == 1 {
+		return pattern == text;
+	}
+	let mut rest = text;
+	for (i, part) in parts.iter().enumerate() {
+		if i == 0 {
+			if !rest.starts_with(part) {
+				return false;
+			}
+			rest = &rest[part.len()..];
+		} else if i == parts.len() - 1 {
+			return rest.ends_with(part);
+		} else {
+			match rest.find(part) {
+				Some(k) => rest = &rest[k + part.len()..],
+				None => return false,
+			}
+		}
+	}
+	true
 }
 
 pub fn load_known_findings() -> Vec<KnownFinding> {
